@@ -120,6 +120,10 @@ func witnesses(ops hx.Counter, withPoll bool) []Case {
 	for i, pert := range []string{"rotate", "rotate-validator", "unassign-role", "blacklist", "remove-permission", "none"} {
 		tag("actor_perturbed_"+pert, runPerturb(PerturbParams{Seed: 9210 + uint64(i), Individual: []int{0, 2, 4, 6}, ViaRole: []int{1, 3, 5}, Councilor: i%2 == 0, VoteBefore: true, Perturb: pert}, ops))
 	}
+	// key-prefix collisions in stores iterated by a concatenated prefix that block hooks read
+	tag("rr_holder_prefix_node1_node10", runRRPrefix(RRPrefixParams{Seed: 9221, Snap: 1, Monikers: []string{"node1", "node10"}, Short: "6000000000000", Long: "1000000", Register: 2, NBlocks: 8}, ops))
+	tag("rr_holder_unrelated_monikers", runRRPrefix(RRPrefixParams{Seed: 9222, Snap: 1, Monikers: []string{"x1", "x2"}, Short: "6000000000000", Long: "1000000", Register: 2, NBlocks: 8}, ops))
+	tag("rr_holder_prefix_minority_holder", runRRPrefix(RRPrefixParams{Seed: 9223, Snap: 1, Monikers: []string{"a", "ab"}, Short: "4000000000000", Long: "1000000", Register: 3, NBlocks: 8}, ops))
 	// the sanctioned halt
 	tag("upgrade_halt_sanctioned", runUpgrade(UpgradeParams{Seed: 9061, Instate: false, Skip: false}, ops))
 	tag("upgrade_instate_skip_no_halt", runUpgrade(UpgradeParams{Seed: 9062, Instate: true, Skip: true}, ops))
